@@ -22,6 +22,8 @@ structure RLInv (nn : NNet) (x : Nat) (cur : Net) (rem : List Nat) (ren : Option
   xins : ∀ k l', (cur.node x).ins.getD k none = some l' → r.line l' ∈ rem
   xouts : ∀ k, (cur.node x).outs.getD k none = none
   rnode : ∀ j, r.node j = j
+  lsurj : ∀ l, l < nn.net.lines.size → (nn.net.line l).reader ≠ x → ∃ l', l' < cur.lines.size ∧ r.line l' = l
+  remx : ∀ l0 ∈ rem, (nn.net.line l0).reader = x
 
 theorem removeLines_inv (nn : NNet) (x : Nat) : ∀ (rem : List Nat) (cur : Net) (ren : Option Nat → Option Nat) (r : Ren)
     (net' : Net), RLInv nn x cur rem ren r → removeLines ren rem cur = some net' →
@@ -50,7 +52,8 @@ theorem removeLines_inv (nn : NNet) (x : Nat) : ∀ (rem : List Nat) (cur : Net)
         have : (cur.node x).outs.getD (cur.line l').dpin none = some l' := by rw [← e0]; exact bo
         rw [iv.xouts] at this; exact absurd this (by simp)
       refine removeLines_inv nn x rest cur' _ (r.comp (lineRen cur.lines.size l')) net' ?_ he
-      refine ⟨w', ?_, by rw [sp.nsize]; exact iv.xlt, by rw [sp.io]; exact iv.xio, ?_, hnd.2, ?_, ?_, fun j => iv.rnode j⟩
+      refine ⟨w', ?_, by rw [sp.nsize]; exact iv.xlt, by rw [sp.io]; exact iv.xio, ?_, hnd.2, ?_, ?_, fun j => iv.rnode j, ?_,
+        fun l1 hl1 => iv.remx l1 (List.mem_cons_of_mem _ hl1)⟩
       · refine (iv.emb.trans e').weaken ?_
         intro j _ hj
         rcases hj with hj | hj
@@ -96,16 +99,30 @@ theorem removeLines_inv (nn : NNet) (x : Nat) : ∀ (rem : List Nat) (cur : Net)
         rw [if_neg this]
         show mvL _ _ ((cur.node x).outs.getD k none) = none
         rw [iv.xouts]; rfl
+      · intro l hl hne
+        obtain ⟨l1, hl1, e1⟩ := iv.lsurj l hl hne
+        have hne1 : l1 ≠ l' := by
+          intro e0; subst e0
+          rw [hrl] at e1
+          exact hne (e1 ▸ (iv.remx l0 List.mem_cons_self))
+        obtain ⟨m1, m2⟩ := mv_facts hl' hl1 hne1
+        exact ⟨mvN cur.lines.size l' l1, by rw [sp.lsize]; exact m1, by
+          show r.line (nmN cur.lines.size l' (mvN cur.lines.size l' l1)) = l
+          rw [m2]; exact e1⟩
 
 /-- **one node removed**: a node that is no port and has no connected output, with the lines at its input pins -/
 theorem removeRoot_emb (nn : NNet) (w : WFm nn) (x : Nat) (hx : x < nn.net.nodes.size) (hio : x ∉ nn.net.io)
     (houts : ∀ k, (nn.net.node x).outs.getD k none = none) (net' : Net)
     (he : removeLines id ((nn.net.node x).ins.filterMap id) nn.net = some net') :
     WFm (delNode { nn with net := net' } x) ∧ ∃ r, Emb nn (delNode { nn with net := net' } x) r ∧
-      ∀ j, j < nn.net.nodes.size → j ≠ x → ∃ j', j' < (delNode { nn with net := net' } x).net.nodes.size ∧ r.node j' = j := by
+      (∀ j, j < nn.net.nodes.size → j ≠ x → ∃ j', j' < (delNode { nn with net := net' } x).net.nodes.size ∧ r.node j' = j) ∧
+      (∀ l, l < nn.net.lines.size → (nn.net.line l).reader ≠ x →
+        ∃ l', l' < (delNode { nn with net := net' } x).net.lines.size ∧ r.line l' = l) := by
   have iv0 : RLInv nn x nn.net ((nn.net.node x).ins.filterMap id) id Ren.id := by
     refine ⟨w, (Emb.refl nn w.io (fun l hl => (w.back l hl).1)).weaken (fun _ _ h => absurd h id), hx, hio, ?_, ?_, ?_, houts,
-      fun _ => rfl⟩
+      fun _ => rfl, fun l hl _ => ⟨l, hl, rfl⟩, fun l0 hl0 => by
+        obtain ⟨k, hk⟩ := (mem_filterMap_id _ l0).mp hl0
+        exact (w.fwdIn x hx k l0 hk).2.1⟩
     · intro l0 hl0
       obtain ⟨k, hk⟩ := (mem_filterMap_id _ l0).mp hl0
       obtain ⟨a1, a2, _⟩ := w.fwdIn x hx k l0 hk
@@ -136,7 +153,9 @@ theorem removeRoot_emb (nn : NNet) (w : WFm nn) (x : Nat) (hx : x < nn.net.nodes
   have hsz : net'.nodes.size = nn.net.nodes.size := by
     have := iv.emb.nodeLt
     exact (pinsOnly_removeLines _ _ _ _ he).1.1
-  refine ⟨w2, _, (iv.emb.trans e2).strengthen ?_, ?_⟩
+  refine ⟨w2, _, (iv.emb.trans e2).strengthen ?_, ?_, fun l hl hne => by
+    obtain ⟨l1, hl1, e1⟩ := iv.lsurj l hl hne
+    exact ⟨l1, by rw [(delNode_sizes { nn with net := net' } x).2]; exact hl1, e1⟩⟩
   · intro j hj hc
     rw [hs] at hj
     rcases hc with hc | hc
